@@ -1,5 +1,6 @@
 import Driver.Util
 import TrimeshVerif.Model.Creation
+import TrimeshVerif.Model.Extrude
 open Lean Drv TV.Query TV.Creation
 namespace Drv.C15
 
@@ -16,6 +17,18 @@ def ofFace (f : Face) : Json := Json.arr #[ofNat f.1, ofNat f.2.1, ofNat f.2.2]
 def handle (j : Json) : Except String Json := do
   let op ← fld j "op" jStr
   match op with
+  | "extrude" =>
+    -- index model of extrude_triangulation on the cap faces the code works with
+    let cap ← fld j "cap" (jList (fun f => do
+      match f with
+      | Json.arr #[a, b, c] => pure (((← jNat a), (← jNat b), (← jNat c)) : TV.Extrude.Face)
+      | _ => throw "face expected"))
+    let d := TV.Extrude.dirEdges cap
+    let nodup := decide (d.Nodup)
+    pure <| obj [("faces", ofList (fun (f : TV.Extrude.Face) => Json.arr #[ofNat f.1, ofNat f.2.1, ofNat f.2.2])
+        (TV.Extrude.extrude cap)),
+      ("boundary", ofList (fun (e : Nat × Nat) => Json.arr #[ofNat e.1, ofNat e.2]) (TV.Extrude.boundary cap)),
+      ("hyp_nodup", ofBool nodup), ("hyp_noloops", ofBool (d.all (fun e => e.1 != e.2)))]
   | "revolve" =>
     let prof ← fld j "profile" (jList jPair)
     let dirs ← fld j "dirs" (jList jPair)
